@@ -471,8 +471,14 @@ func (fs *fileStorage) List(ft FileType) (fds []FileDesc, err error) {
 		fs.log(fmt.Sprintf("close dir: %v", cerr))
 	}
 	if err == nil {
+		// A file present under its new and its old name is one file.
+		seen := make(map[FileDesc]struct{}, len(names))
 		for _, name := range names {
 			if fd, ok := fsParseName(name); ok && fd.Type&ft != 0 {
+				if _, dup := seen[fd]; dup {
+					continue
+				}
+				seen[fd] = struct{}{}
 				fds = append(fds, fd)
 			}
 		}
@@ -569,7 +575,18 @@ func (fs *fileStorage) Rename(oldfd, newfd FileDesc) error {
 	if fs.open < 0 {
 		return ErrClosed
 	}
-	return rename(filepath.Join(fs.path, fsGenName(oldfd)), filepath.Join(fs.path, fsGenName(newfd)))
+	if err := rename(filepath.Join(fs.path, fsGenName(oldfd)), filepath.Join(fs.path, fsGenName(newfd))); err != nil {
+		return err
+	}
+	if fsHasOldName(newfd) {
+		// The file that has been replaced may exist under its old name: it
+		// must not stay next to its replacement.
+		if err := os.Remove(filepath.Join(fs.path, fsGenOldName(newfd))); err != nil && !os.IsNotExist(err) {
+			fs.log(fmt.Sprintf("rename %s: remove old name: %v", newfd, err))
+			return err
+		}
+	}
+	return nil
 }
 
 func (fs *fileStorage) Close() error {
